@@ -159,6 +159,13 @@ def run(ctx) -> None:
         ("C12.R5-killed-cancelled-excluded", "restartHookOn cannot list Killed/Cancelled (schema) and the instability guard excludes them"),
         ("C12.R6-refusals", "ComponentState.restart refuses after shutdown; RepeatingEngine.restart launches at most once and only for ResourceExhausted"),
         ("C12.R7-refusal-final-state", "a refused restart leads to TransitionComponentToFinalState in postMortemCheck"),
+        ("C12.R10-hook-outcomes-contained", "the call of the restart hook is enclosed by handlers for Exception and for SystemExit (a hook calling "
+                                            "sys.exit()); each of them records a refusing restart context and none re-raises, so every hook "
+                                            "outcome - raising included - comes back to the controller as a restart code"),
+        ("C12.R9-final-state-listener-kept", "the subject through which a kill reaches an engine that has not run yet (it is subscribed once, in "
+                                             "Engine.__init__) is replaced by restart only when the engine is no longer alive, or the replacing "
+                                             "method subscribes the handler again: otherwise the final state of a refused restart "
+                                             "(finish() -> kill()) is emitted into a subject nobody listens to"),
     ]:
         ctx.rule(rid, text)
     ctx.assume("the hook's side effects are not modelled; only its return value protocol")
@@ -169,8 +176,10 @@ def run(ctx) -> None:
     wf = ctx.repo.module(WORKFLOW)
     fir = ctx.repo.module(FLOWIR)
 
+    check_listener_kept(ctx, eng)
     fn = eng.func("Engine.restart")
     discover_roles(fn)
+    check_hook_contained(ctx, eng, fn)
     ctx.analysed(fn)
     cfg = CFG(fn)
     ctx.paths += cfg.paths_count()
@@ -577,6 +586,15 @@ def run(ctx) -> None:
         ok = bool(t_re) and match.only_via_edges(c4, s_, t_re)
         ctx.ob("C12.R6-refusals", s_.ast, ok, "a repeating engine relaunches only for ResourceExhausted" if ok else
                "a repeating engine can relaunch for a reason other than ResourceExhausted", construct="thread start <- ResourceExhausted")
+        t_listed = match.test_nodes(c4, lambda t: "T" if (match.compare_parts(t) and isinstance(match.compare_parts(t)[1], ast.In)
+                                                          and isinstance(match.compare_parts(t)[0], ast.Name) and match.compare_parts(t)[0].id == "reason"
+                                                          and any(isinstance(k, ast.Constant) and k.value == "restartHookOn"
+                                                                  for k in ast.walk(match.resolve_local(rr, match.compare_parts(t)[2])))) else None)
+        ok = bool(t_listed) and match.only_via_edges(c4, s_, t_listed)
+        ctx.ob("C12.R6-refusals", s_.ast, ok, "a repeating engine relaunches only for a reason listed in restartHookOn" if ok else
+               "RepeatingEngine.restart relaunches without consulting workflowAttributes.restartHookOn: a repeating component declared with "
+               "'restartHookOn: [KnownIssue]' (or []) is restarted after ResourceExhausted through the controller's unstable-system path",
+               construct="thread start <- reason in restartHookOn")
         ok = bool(t_zero) and match.only_via_edges(c4, s_, t_zero)
         ctx.ob("C12.R6-refusals", s_.ast, ok, "a repeating engine relaunches only when it has not restarted before" if ok else
                "a repeating engine can relaunch more than once", construct="thread start <- restarts == 0")
@@ -628,6 +646,112 @@ def run(ctx) -> None:
         ok = bool(fin) and c5.exit.id not in r
         ctx.ob("C12.R7-refusal-final-state", tn.ast, ok, "a refused restart gives the component its final state" if ok else
                "a refused restart leaves the component without a final state")
+
+
+def check_hook_contained(ctx, eng, fn) -> None:
+    RID = "C12.R10-hook-outcomes-contained"
+    hook_calls = [n for n in source.walk_own(fn) if isinstance(n, ast.Assign) and len(n.targets) == 1 and isinstance(n.targets[0], ast.Name)
+                  and n.targets[0].id == RCTX and isinstance(n.value, ast.Call) and isinstance(n.value.func, ast.Name)]
+    ctx.floor(RID, len(hook_calls), 1, "calls of the restart hook whose result becomes the restart context")
+    tries = [t for t in source.walk_own(fn) if isinstance(t, ast.Try)]
+    for hc in hook_calls:
+        enclosing = [t for t in tries if any(x is hc for st in t.body for x in ast.walk(st))]
+        caught: Dict[str, ast.ExceptHandler] = {}
+        for t in enclosing:
+            for h in t.handlers:
+                names = ["*"] if h.type is None else [source.src(x).split(".")[-1] for x in (h.type.elts if isinstance(h.type, ast.Tuple) else [h.type])]
+                for nm in names:
+                    caught.setdefault(nm, h)
+        for need, alts in (("Exception", ("Exception", "BaseException", "*")), ("SystemExit", ("SystemExit", "BaseException", "*"))):
+            hs = [caught[a] for a in alts if a in caught]
+            ok = bool(hs)
+            reason = ""
+            if ok:
+                h = hs[0]
+                reraises = any(isinstance(x, ast.Raise) for st in h.body for x in ast.walk(st))
+                sets = [codes_key(x.value, "restartContexts") for st in h.body for x in ast.walk(st)
+                        if isinstance(x, ast.Assign) and any(isinstance(t, ast.Name) and t.id == RCTX for t in x.targets)]
+                if reraises:
+                    ok, reason = False, "its handler re-raises"
+                elif not sets or any(k is None or k in ALLOWING for k in sets):
+                    ok, reason = False, "its handler does not record a refusing restart context"
+            else:
+                reason = "no handler around the hook call catches it"
+            ctx.ob(RID, hc, ok,
+                   "%s raised by the hook is caught and becomes a refusing restart context" % need if ok else
+                   "%s raised by the restart hook is not contained (%s): %s leaves Engine.restart, _restartComponent and postMortemCheck "
+                   "(which catch Exception only), the component is never finished and never receives its final state" % (
+                       need, reason, "a hook that calls sys.exit()" if need == "SystemExit" else "a raising hook"),
+                   construct="%s(...) <- except %s" % (source.src(hc.value.func), need))
+
+
+def check_listener_kept(ctx, eng) -> None:
+    """C12.R9: subjects subscribed in __init__ are only replaced when the engine is dead (or re-subscribed by the replacing method)."""
+    RID = "C12.R9-final-state-listener-kept"
+    cls = eng.cls("Engine")
+    init = eng.func("Engine.__init__")
+    ctx.analysed(init)
+
+    def self_attr(e: ast.AST) -> Optional[str]:
+        return e.attr if isinstance(e, ast.Attribute) and isinstance(e.value, ast.Name) and e.value.id == "self" else None
+
+    def subscribed_attrs(fn: ast.AST) -> Set[str]:
+        """self.<X> such that fn contains self.X[.pipe(...)]*.subscribe(...)"""
+        out: Set[str] = set()
+        for c in source.calls_in(fn):
+            if isinstance(c.func, ast.Attribute) and c.func.attr == "subscribe":
+                b = c.func.value
+                while isinstance(b, ast.Call) and isinstance(b.func, ast.Attribute) and b.func.attr == "pipe":
+                    b = b.func.value
+                a = self_attr(b)
+                if a:
+                    out.add(a)
+        return out
+    subs = subscribed_attrs(init)
+    family = [cls] + [k for k in eng.tree.body if isinstance(k, ast.ClassDef) and any(source.src(b).split(".")[-1] == "Engine" for b in k.bases)]
+    methods = [m for k in family for m in k.body if isinstance(m, ast.FunctionDef) and m.name != "__init__"]
+    # methods that rebind a subscribed attribute (the whole subject is thrown away, with its subscribers)
+    rebinders: Dict[str, Set[str]] = {}
+    for m in methods:
+        hit = {self_attr(t) for n in source.walk_own(m) if isinstance(n, ast.Assign) for t in n.targets if self_attr(t) in subs}
+        hit.discard(None)
+        if hit and not (hit <= subscribed_attrs(m)):
+            rebinders[m.name] = hit
+    ctx.require(bool(subs) and bool(rebinders), "anchor missing: a subject subscribed in Engine.__init__ and a method that re-creates it")
+    n = 0
+    for m in methods:
+        if m.name in rebinders:
+            continue
+        calls = [c for c in source.calls_in(m) if isinstance(c.func, ast.Attribute) and self_attr(c.func) in rebinders]
+        if not calls:
+            continue
+        ctx.analysed(m)
+        cfg = CFG(m)
+        ctx.paths += cfg.paths_count()
+        alive = match.test_nodes(cfg, lambda t: _alive_label(t))
+        for c in calls:
+            n += 1
+            nodes = [nd for nd in cfg.nodes if nd.kind in ("stmt", "test") and nd.ast is not None and any(x is c for x in ast.walk(nd.ast))]
+            ok = bool(alive) and bool(nodes) and all(match.only_via_edges(cfg, nd, [(t, match.other(lab)) for (t, lab) in alive]) for nd in nodes)
+            what = ", ".join(sorted("self." + a for a in rebinders[self_attr(c.func)]))
+            ctx.ob(RID, c, ok,
+                   "%s is re-created in %s only on the side of an isAlive() test where the engine is dead" % (what, m.name) if ok else
+                   "%s re-creates %s on a path where the engine may still be alive (never run): the handler that Engine.__init__ subscribed "
+                   "to deliver a kill before run() listens to the old subject, so when this restart is refused and the controller finishes "
+                   "the component, kill() emits into a subject without listeners and the component never receives its final state" % (m.name, what),
+                   construct="%s: self.%s() <- only when not alive" % (m.name, self_attr(c.func)))
+    ctx.floor(RID, n, 1, "call sites outside __init__ that re-create a subject subscribed in Engine.__init__")
+
+
+def _alive_label(t: ast.AST) -> Optional[str]:
+    """label of the edge on which self.isAlive() is truthy"""
+    flip = False
+    while isinstance(t, ast.UnaryOp) and isinstance(t.op, ast.Not):
+        t, flip = t.operand, not flip
+    lab = match.polarity(t, lambda e: isinstance(e, ast.Call) and call_name(e) == "self.isAlive" and not e.args)
+    if lab is None:
+        return None
+    return match.other(lab) if flip else lab
 
 
 def check_refusals_everywhere(ctx, ctl) -> None:
